@@ -154,7 +154,7 @@ Hypothesis Q : quote_laws O.
 Lemma printed_line : forall t, gdom_triple O t ->
   exists c m d, print_triple O t = c :: m ++ [d] /\ first_ok c = true /\ last_ok d = true /\ d <> x0d.
 Proof.
-  intros [s p o] Hd. destruct Hd as [Hs [_ [_ [_ Ho]]]]. cbn [subj tobj] in *.
+  intros [s p o] Hd. destruct Hd as [Hs [_ [_ Ho]]]. cbn [subj tobj] in *.
   unfold dom_node, wf_node in Hs. apply andb_true_iff in Hs. destruct Hs as [Hs _]. apply andb_true_iff in Hs. destruct Hs as [Hty _].
   destruct (type_ok_shape _ Hty) as [tr Htr].
   destruct (print_object_last O Q o Ho) as [om [od [Eo Hod]]].
